@@ -1,0 +1,12 @@
+//go:build verif
+
+package node
+
+import "github.com/evstack/ev-node/block"
+
+// Hooks for the external verification harness (/verif). Compiled only with `-tags verif`;
+// accessors only, no behaviour change.
+
+// VerifBlockManager returns the node's block manager (read-only use by the C13 stream: DA-included
+// height, pending counts and cache marks after the node has been stopped).
+func (n *FullNode) VerifBlockManager() *block.Manager { return n.blockManager }
